@@ -30,6 +30,10 @@ LONGROW = [
     [("F", 12, 1), ("F", 1, 1)],
     [("F", 12, 1), ("G", 2, 0), ("F", 12, -1)],
     [("F", 3, 1), ("G", 1, 0), ("F", 12, 1), ("G", 1, 0), ("F", 3, 1)],
+    # zero-length gap rows (both parsers accept them)
+    [("F", 3, 1), ("G", 0, 0), ("F", 3, 1)],
+    [("F", 5, 1), ("G", 0, 0), ("G", 1, 0), ("F", 3, -1)],
+    [("G", 0, 0), ("F", 3, 1), ("F", 1, 1), ("G", 0, 0)],
     # contigs of unknown orientation (AGP "?", strand 0)
     [("F", 12, 0)],
     [("F", 5, 0), ("G", 1, 0), ("F", 3, 1)],
@@ -340,4 +344,4 @@ class C18(Check):
 
 CHECK = C18()
 # scope added in later rounds, kept in the evidence text
-CHECK.rule += ' Scaffolds that list the same contig interval twice (rows equal by value, distinct objects). Long-row family: twelve scaffolds with rows of 7 / 12 bases and rows of unknown orientation (strand 0) (a short bait overhangs by more than every error length on both sides).'
+CHECK.rule += ' Scaffolds that list the same contig interval twice (rows equal by value, distinct objects). Long-row family: twelve scaffolds with rows of 7 / 12 bases rows of unknown orientation (strand 0) and zero-length gap rows (a short bait overhangs by more than every error length on both sides).'
